@@ -61,7 +61,7 @@ def class_source(k: int, fname: str, alias: Optional[str], override: bool, cal: 
 {deco}@dataclass
 class C{k}:
 {fdecl}
-    other: int = 0
+    other: int = field(default=0)
     @validator({fname})
     def field_validator(self):
         _ = self.{fname}
@@ -72,6 +72,16 @@ class C{k}:
         _ = self.{fname}
         if SWITCH.get("yielding"):
             yield get_alias(self).{fname}, "yielded"
+    @validator(other)
+    def other_validator(self):
+        _ = self.other
+        if SWITCH.get("other_validator"):
+            raise ValidationError("other failed")
+    @validator
+    def other_yielding(self):
+        _ = self.other
+        if SWITCH.get("other_yielding"):
+            yield get_alias(self).other, "other yielded"
 dependent_required({{"other": [{fname!r}]}}, owner=C{k})
 @dataclass
 class H{k}:
@@ -214,6 +224,32 @@ def check_config(mod, k, cfg, st: infra.Stats):
                 except ValidationError as e:
                     if locs(e) != [((ext,), msg)]:
                         viol("flattened_validator_loc:" + sw, f"{locs(e)}")
+            # several validators failing at once (a failing validator with discard runs the
+            # remaining ones in a nested call: their locations must be aliased as well)
+            for combo in (("field_validator", "other_validator"), ("field_validator", "other_yielding"), ("yielding", "other_validator"), ("field_validator", "yielding", "other_validator", "other_yielding")):
+                mod.SWITCH.clear()
+                for c in combo:
+                    mod.SWITCH[c] = True
+                msgs = {"field_validator": (ext, "field validator failed"), "yielding": (ext, "yielded"), "other_validator": (other_ext, "other failed"), "other_yielding": (other_ext, "other yielded")}
+                # a failing field validator discards its field: later validators reading it are not run
+                run = []
+                discarded = set()
+                for v, f in (("field_validator", "F"), ("yielding", "F"), ("other_validator", "O"), ("other_yielding", "O")):
+                    if f in discarded:
+                        continue
+                    if v in combo:
+                        run.append(v)
+                        if v in ("field_validator", "other_validator"):
+                            discarded.add(f)
+                exp = sorted(((msgs[v][0],), msgs[v][1]) for v in run)
+                for tname, T_, datum, prefix in (("", C, {ext: 1, other_ext: 2}, ()), ("nested_", H, {inner_ext: {ext: 1, other_ext: 2}}, (inner_ext,))):
+                    try:
+                        deserialize(T_, datum, **kw)
+                        viol(tname + "multi_validator_loc", f"{combo}: validators did not fail")
+                    except ValidationError as e:
+                        exp2 = sorted((prefix + l, m_) for l, m_ in exp)
+                        if locs(e) != exp2:
+                            viol(tname + "multi_validator_loc", f"{combo}: {locs(e)} expected {exp2}")
             mod.SWITCH.clear()
             # nested / flattened keys
             try:
